@@ -246,7 +246,14 @@ func (st *StateTransition) TransitionDb() (*core.ExecutionResult, error) {
 
 	// Set up the initial access list.
 	if rules.IsBerlin {
-		activePrecompiles := append(corevm.ActivePrecompiles(rules), st.evm.GetCustomPrecompiledContractsAddress()...)
+		activePrecompiles := append([]common.Address{}, corevm.ActivePrecompiles(rules)...)
+		for _, addr := range st.evm.GetCustomPrecompiledContractsAddress() {
+			// the list is built with make(len)+append and so starts with zero addresses,
+			// which would make 0x0 warm (cheaper BALANCE/EXT*/CALL on it than on go-ethereum)
+			if addr != (common.Address{}) {
+				activePrecompiles = append(activePrecompiles, addr)
+			}
+		}
 		st.state.PrepareAccessList(msg.From(), msg.To(), activePrecompiles, msg.AccessList())
 	}
 	var (
